@@ -396,7 +396,7 @@ def programs(tier):
     ps += [(i, src) for i, src, _ in progspace.programs("smoke")]
     ps += [(i, src) for i, src, _ in progspace.programs("quick")[100::25]]
   else:
-    ps += [(i, src) for i, src, _ in progspace.programs("quick")]
+    ps += [(i, src) for i, src, _ in progspace.programs("quick")[::3]]   # every third PS-core program (4 analyses each)
   return ps
 
 
